@@ -1,0 +1,15 @@
+//go:build verif
+
+package discovery
+
+// VerifYield, when set, is called by the Synchronize goroutine of member id at the named point
+// (currently: "intersect", after the peer table has been read and before the views are compared).
+// The verification harness under /verif uses it to deliver messages at that very moment.
+// No lock is held at a yield point.
+var VerifYield func(id uint16, point string)
+
+func verifYield(id uint16, point string) {
+	if f := VerifYield; f != nil {
+		f(id, point)
+	}
+}
